@@ -36,6 +36,16 @@ type subject3 struct {
 	quiet     bool    // derived field: no per-region / per-kind counters
 	// after runs extra API-specific clauses at a decided query.
 	after func(c *vlib.Case, p C3, refSD, tol float64)
+	// baseOK, for a derived field, reports whether the library's base field is
+	// itself right at the (reference-frame) query; where it is not, the derived
+	// clauses are not decided, so that a defect of a primitive is reported
+	// under the primitive's keys only.
+	baseOK func(p C3) bool
+	// zoneKey, if set, is the clause under which a distance error is reported
+	// that is only covered by the extra tolerance (a coded numerical guard of
+	// the base shape that is itself a finding); derived fields leave it empty
+	// so that one root cause is reported once.
+	zoneKey string
 }
 
 func (s *subject3) init() {
@@ -67,8 +77,9 @@ func (s *subject3) witness(p C3, more map[string]interface{}) map[string]interfa
 }
 
 // check3 evaluates every clause the subject supports at reference-frame query
-// p0 and returns the library's SDF value (NaN if the query was skipped).
-func check3(c *vlib.Case, s *subject3, p0 C3, kind string) float64 {
+// p0 and returns the library's SDF value (NaN if the query was skipped) and
+// whether the distance clause held there.
+func check3(c *vlib.Case, s *subject3, p0 C3, kind string) (float64, bool) {
 	e := s.ref.Eval(p0)
 	p := p0
 	if s.mapQuery != nil {
@@ -79,11 +90,15 @@ func check3(c *vlib.Case, s *subject3, p0 C3, kind string) float64 {
 	if s.skip != nil {
 		if why := s.skip(p0, refSD); why != "" {
 			c.Undecided(why)
-			return math.NaN()
+			return math.NaN(), false
 		}
 	}
 	if !fin3(p) || !fin(refSD) {
-		return math.NaN()
+		return math.NaN(), false
+	}
+	if s.baseOK != nil && !s.baseOK(p0) {
+		c.Undecided("derived-field:base-field-already-wrong-at-this-query")
+		return math.NaN(), false
 	}
 	abs := absTolK*s.scale*k + absTolK*g.MaxAbs3(p)
 	extra := 0.0
@@ -101,9 +116,11 @@ func check3(c *vlib.Case, s *subject3, p0 C3, kind string) float64 {
 	c.Count(s.tag+".SDF.calls", 1)
 	if !fin(sd) {
 		c.Violation(s.api+".SDF/finite", fmt.Sprintf("SDF returned %v, reference %.17g", sd, refSD), s.witness(p, nil))
-		return sd
+		return sd, false
 	}
+	distOK := true
 	if diff := math.Abs(math.Abs(sd) - math.Abs(refSD)); diff > tol {
+		distOK = false
 		c.Violation(s.api+".SDF/distance", fmt.Sprintf("|SDF|=%.17g but the Euclidean distance to the boundary is %.17g (diff %.3g > tol %.3g, nearest piece %s)", math.Abs(sd), math.Abs(refSD), diff, tol, e.Region),
 			s.witness(p, map[string]interface{}{"sdf": g.Hex(sd), "reference": g.Hex(refSD), "region": e.Region}))
 	} else {
@@ -112,6 +129,10 @@ func check3(c *vlib.Case, s *subject3, p0 C3, kind string) float64 {
 			c.Max(s.tag+".worst_distance_error_over_tolerance", diff/base)
 		} else {
 			c.Count(s.tag+".SDF.distance_ok_only_with_extra_tolerance", 1)
+			if s.zoneKey != "" {
+				c.Violation(s.api+s.zoneKey, fmt.Sprintf("|SDF|=%.17g but the Euclidean distance to the boundary is %.17g (relative error %.3g; nearest piece %s)", math.Abs(sd), math.Abs(refSD), diff/math.Abs(refSD), e.Region),
+					s.witness(p, map[string]interface{}{"sdf": g.Hex(sd), "reference": g.Hex(refSD), "region": e.Region}))
+			}
 		}
 	}
 	signDecided := math.Abs(refSD) > 2*tol
@@ -201,7 +222,7 @@ func check3(c *vlib.Case, s *subject3, p0 C3, kind string) float64 {
 	if s.after != nil {
 		s.after(c, p, refSD, tol)
 	}
-	return sd
+	return sd, distOK
 }
 
 func inout(in bool) string {
@@ -236,6 +257,10 @@ func checkNormal3(c *vlib.Case, s *subject3, p C3, e g.RefEval3, n C3) {
 		return
 	}
 	c.Count("oracle.normal_selfcheck_ok", 1)
+	c.Count(s.tag+".NormalSDF.outward_decided", 1)
+	if !s.quiet {
+		c.Count(s.tag+".NormalSDF.outward_decided."+e.Region, 1)
+	}
 	if d := g.Len3(g.Sub3(n, e.Normal)); d > normalTol {
 		c.Violation(s.api+".NormalSDF/outward-normal", fmt.Sprintf("normal %v differs from the outward unit normal %v of the %s at the nearest point by %.3g (= -grad of the distance field by central differences: %v)", n, e.Normal, e.Region, d, g.Scale3(grad, -1)),
 			s.witness(p, map[string]interface{}{"normal_hex": hx(n), "reference_normal": dec(e.Normal), "region": e.Region}))
@@ -270,27 +295,6 @@ func boundaryBound3(c *vlib.Case, s *subject3, p C3, sd float64, rng *rand.Rand,
 		}
 	}
 	c.Count(s.tag+".SDF.boundary_samples_ok", int64(n))
-}
-
-// onBoundary3 checks that the field is ~0 at a parametrised boundary point.
-func onBoundary3(c *vlib.Case, s *subject3, rng *rand.Rand) {
-	if s.mapQuery != nil {
-		return
-	}
-	b := s.ref.Boundary(rng)
-	if s.skip != nil && s.skip(b, 0) != "" {
-		return
-	}
-	sd := s.sdf.SDF(b)
-	tol := 4*absTolK*(s.scale+g.MaxAbs3(b)) + 1e-9*s.ref.Size()
-	if s.extra != nil {
-		tol += s.extra(b, 0)
-	}
-	if !(math.Abs(sd) <= tol) {
-		c.Violation(s.api+".SDF/zero-on-boundary", fmt.Sprintf("SDF=%.17g at a boundary point (tol %.3g)", sd, tol), s.witness(b, nil))
-	} else {
-		c.Count(s.tag+".SDF.zero_on_boundary_ok", 1)
-	}
 }
 
 // lipschitz3 checks |f(a)-f(b)| <= |a-b| (reference-free).
@@ -354,11 +358,17 @@ func runSubject3(c *vlib.Case, s *subject3, nq int) {
 	regions := map[string]bool{}
 	for i := 0; i < nq; i++ {
 		p, kind := query3(rng, s.ref)
-		sd := check3(c, s, p, kind)
+		sd, ok := check3(c, s, p, kind)
 		if math.IsNaN(sd) {
 			continue
 		}
 		regions[s.ref.Eval(p).Region] = true
+		if !ok {
+			// already reported against the reference; the reference-free
+			// clauses below would only repeat it under more keys
+			havePrev = false
+			continue
+		}
 		boundaryBound3(c, s, p, sd, rng, 3)
 		// Lipschitz: against the previous query and against a close neighbour
 		if havePrev {
@@ -370,13 +380,10 @@ func runSubject3(c *vlib.Case, s *subject3, nq int) {
 		if s.mapQuery != nil {
 			q2 = s.mapQuery(p2)
 		}
-		if s.skip == nil || s.skip(p2, s.ref.Eval(p2).SD*s.distScale) == "" {
+		if (s.skip == nil || s.skip(p2, s.ref.Eval(p2).SD*s.distScale) == "") && (s.baseOK == nil || s.baseOK(p2)) {
 			lipschitz3(c, s, p, p2, sd, s.sdf.SDF(q2))
 		}
 		prev, prevSD, havePrev = p, sd, true
-		if i%4 == 0 {
-			onBoundary3(c, s, rng)
-		}
 	}
 	if len(regions) >= 2 {
 		c.Nontrivial(fmt.Sprint(s.api, s.params))
